@@ -484,19 +484,25 @@ impl Drop for OwnerInner {
 
         let nodes = mem::take(&mut self.nodes);
         if !nodes.is_empty() {
+            // The values are dropped only after the arena lock has been released: a value
+            // may own (say, through an `ArcMemo` captured by a stored closure) another owner
+            // whose own cleanup has to lock the arena again.
             #[cfg(not(feature = "sandboxed-arenas"))]
-            Arena::with_mut(|arena| {
-                for node in nodes {
-                    _ = arena.remove(node);
-                }
+            let removed = Arena::with_mut(|arena| {
+                nodes
+                    .into_iter()
+                    .filter_map(|node| arena.remove(node))
+                    .collect::<Vec<_>>()
             });
             #[cfg(feature = "sandboxed-arenas")]
-            {
+            let removed = {
                 let mut arena = self.arena.write().or_poisoned();
-                for node in nodes {
-                    _ = arena.remove(node);
-                }
-            }
+                nodes
+                    .into_iter()
+                    .filter_map(|node| arena.remove(node))
+                    .collect::<Vec<_>>()
+            };
+            drop(removed);
         }
     }
 }
@@ -525,20 +531,24 @@ impl Cleanup for RwLock<OwnerInner> {
         }
 
         if !nodes.is_empty() {
+            // see `Drop for OwnerInner`: the values are dropped after the lock is released
             #[cfg(not(feature = "sandboxed-arenas"))]
-            Arena::with_mut(|arena| {
-                for node in nodes {
-                    _ = arena.remove(node);
-                }
+            let removed = Arena::with_mut(|arena| {
+                nodes
+                    .into_iter()
+                    .filter_map(|node| arena.remove(node))
+                    .collect::<Vec<_>>()
             });
             #[cfg(feature = "sandboxed-arenas")]
-            {
+            let removed = {
                 let arena = self.read().or_poisoned().arena.clone();
                 let mut arena = arena.write().or_poisoned();
-                for node in nodes {
-                    _ = arena.remove(node);
-                }
-            }
+                nodes
+                    .into_iter()
+                    .filter_map(|node| arena.remove(node))
+                    .collect::<Vec<_>>()
+            };
+            drop(removed);
         }
     }
 }
